@@ -26,7 +26,9 @@ func init() { register("C09", runC09) }
 // shadowNames are glyph names that the customary CharStrings idiom
 // (`/name n RD ~data~ ND` inside `dict dup begin ... end`) looks up while the
 // CharStrings dictionary is on top of the dictionary stack.
-var shadowNames = []string{"RD", "ND", "def", "end", "string", "currentfile", "exch", "readstring", "pop"}
+var shadowNames = []string{"RD", "ND", "def", "end", "string", "currentfile", "exch", "readstring", "pop",
+	// names that shadow nothing in today's layout (the customary alternative procedure names, other operators): must work
+	"-|", "|-", "|", "NP", "put", "dup", "noaccess", "readonly", "executeonly", "index", "closefile", "mark", "dict", "begin", "array", "for", "eexec", "definefont", "true", "systemdict"}
 
 func runC09(r *rt.Runner) {
 	for _, sn := range shadowNames {
